@@ -783,7 +783,15 @@ class XformWorld:
             k = kind_of(obj)
             if k in ("P", "B"):
                 return int(obj.params.shape[0])
-            if k in ("C", "L"):
+            if k == "L":
+                # the batch of a linked transform is that of the transform whose parameters it reads (its own 'p' may be
+                # a placeholder without batch axis while the target has no parameters yet)
+                cur, seen = obj.params, {id(obj)}
+                while kind_of(cur) == "L" and id(cur) not in seen:
+                    seen.add(id(cur))
+                    cur = cur.params
+                return self.batch_of(cur) if id(cur) not in seen else 1
+            if k == "C":
                 return int(obj.p.shape[0]) if hasattr(obj, "p") else 1
         except Exception:
             pass
@@ -1472,7 +1480,12 @@ class _Ops:
         if not hasattr(t, setter):
             return StepResult("skipped")
         N = int(op["val"].get("N", self.batch_of(t)))
-        if N != self.batch_of(t) and (self.in_composite(x) or self.link_dependents(t) or any(p.valid and (p.t == x.hid or p.i == x.hid) for p in self.pairs)):
+        if k == "N":
+            # no parameters at the moment (unlink_): members of one composite keep a common batch size
+            hosts = [y for y in self.live() if y.is_comp and any(m is t for m in walk_elems(y.obj))]
+            if hosts:
+                N = max(self.batch_of(y.obj) for y in hosts)
+        if N != self.batch_of(t) and k != "N" and (self.in_composite(x) or self.link_dependents(t) or any(p.valid and (p.t == x.hid or p.i == x.hid) for p in self.pairs)):
             return StepResult("skipped")
         val = self.param_tensor(t, dict(op["val"], kind=k), N)
         if setter in ("angles_",):
@@ -2025,8 +2038,12 @@ class _Ops:
         y.affine_params = getattr(x, "affine_params", False)
         self.inherit_hooks(t, r)
         if any(kind_of(e.obj) in ("C", "L") for e in self.elems(y)):
-            # a copied callable is no longer owned by the simulator: do not use this handle
+            # a copied callable is no longer owned by the simulator: do not use this handle, nor those of its members
             y.alive = False
+            mine = {id(m) for m in r.modules()}
+            for z in self.h.values():
+                if id(z.obj) in mine:
+                    z.alive = False
         return StepResult("ok", how)
 
     # -------------------------------------------------------- inverse / link
